@@ -127,6 +127,23 @@ func (f *frame) evalClause(cl Clause, env *SpecEnv) string {
 	return v.Term
 }
 
+// tryEvalClause evaluates a loop clause; a clause that cannot be evaluated at this loop (it names a local the
+// function no longer has, ...) does not take the whole function out of the subset: the clause is simply not
+// available as an assumption and its obligations fail (goal "false"), so a restructured loop is judged, not skipped.
+func (f *frame) tryEvalClause(cl Clause, env *SpecEnv) (term string, ok bool) {
+	defer func() {
+		if r := recover(); r != nil {
+			if e, isSub := r.(ErrSubset); isSub {
+				f.c.warnings = append(f.c.warnings, fmt.Sprintf("%s: loop clause cannot be evaluated (%s): %s", f.path, e.Msg, cl.Text))
+				term, ok = "false", false
+				return
+			}
+			panic(r)
+		}
+	}()
+	return f.evalClause(cl, env), true
+}
+
 // headerPhiOverrides maps loop variable names to values for evaluating invariants.
 // pick selects the value for each header phi.
 func (f *frame) headerPhiOverrides(li *loopInfo, pick func(phi *ssa.Phi) (Val, bool)) map[string]SV {
@@ -209,7 +226,7 @@ func (f *frame) enterLoop(li *loopInfo, in *State) *State {
 		f.seenOverride(li, in, ov)
 		env := f.specEnv(in, b, ov)
 		for i, inv := range li.spec.Invariants {
-			goal := f.evalClause(inv, env)
+			goal, _ := f.tryEvalClause(inv, env)
 			c.oblige(in, lp, fmt.Sprintf("inv-entry%d", i+1), goal, inv.Text, firstPos(b))
 		}
 	} else {
@@ -248,10 +265,14 @@ func (f *frame) enterLoop(li *loopInfo, in *State) *State {
 		f.seenOverride(li, hs, ov)
 		env := f.specEnv(hs, b, ov)
 		for _, inv := range li.spec.Invariants {
-			c.assume(hs, f.evalClause(inv, env))
+			if t, ok := f.tryEvalClause(inv, env); ok {
+				c.assume(hs, t)
+			}
 		}
 		if li.spec.Decreases != nil {
-			li.measure0 = c.define("measure", SInt, f.evalClause(*li.spec.Decreases, env))
+			if t, ok := f.tryEvalClause(*li.spec.Decreases, env); ok {
+				li.measure0 = c.define("measure", SInt, t)
+			}
 		}
 		if clausesMentionDeepcopy(li.spec.Invariants) {
 			c.recordSnap(hs)
@@ -277,11 +298,15 @@ func (f *frame) backEdge(li *loopInfo, from *ssa.BasicBlock, es *State) {
 	env := f.specEnv(es, from, ov)
 	lp := fmt.Sprintf("%s:loop%d", f.path, li.ordinal)
 	for i, inv := range li.spec.Invariants {
-		c.oblige(es, lp, fmt.Sprintf("inv-step%d", i+1), f.evalClause(inv, env), inv.Text, firstPos(li.header))
+		goal, _ := f.tryEvalClause(inv, env)
+		c.oblige(es, lp, fmt.Sprintf("inv-step%d", i+1), goal, inv.Text, firstPos(li.header))
 	}
 	if li.spec.Decreases != nil {
-		m := f.evalClause(*li.spec.Decreases, env)
-		c.oblige(es, lp, "decreases", fmt.Sprintf("(and (>= %s 0) (< %s %s))", li.measure0, m, li.measure0), li.spec.Decreases.Text, firstPos(li.header))
+		if m, ok := f.tryEvalClause(*li.spec.Decreases, env); ok && li.measure0 != "" {
+			c.oblige(es, lp, "decreases", fmt.Sprintf("(and (>= %s 0) (< %s %s))", li.measure0, m, li.measure0), li.spec.Decreases.Text, firstPos(li.header))
+		} else {
+			c.oblige(es, lp, "decreases", "false", li.spec.Decreases.Text, firstPos(li.header))
+		}
 	}
 }
 
